@@ -5,18 +5,6 @@ Import ListNotations.
 Open Scope list_scope.
 
 (* ------------------------------------------------------------------ template *)
-(* what template hands to copy_file *)
-Definition template_copy_params (p : template_params) (w : world) (text : string) : option copy_params :=
-  match tp_mode p with
-  | MPreserve =>
-      match stat w (tp_src p) with
-      | Some n => Some {| cp_input := IContent text; cp_dest := tp_dest p;
-                          cp_mode := MStr (to_octal (mask_perm (st_mode n))) |}
-      | None => None
-      end
-  | m => Some {| cp_input := IContent text; cp_dest := tp_dest p; cp_mode := m |}
-  end.
-
 Lemma template_unfold e p text check s r s' :
   template e p (Some text) check s = (ROk r, s') ->
   exists cp, template_copy_params p (sw s) text = Some cp /\ copy_file e cp check s = (ROk r, s').
@@ -93,13 +81,11 @@ Qed.
 
 Lemma template_ok_noop e p text s s' :
   template e p (Some text) false s = (ROk false, s') ->
-  known_empty_create (TTemplate p (Some text)) (sw s) = false -> s' = s.
+  known_empty_create e (TTemplate p (Some text)) (sw s) = false -> s' = s.
 Proof.
   intros H K. apply template_unfold in H as (cp & Hcp & Hc).
   eapply copy_ok_noop; [exact Hc|].
-  unfold template_copy_params in Hcp. cbn [known_empty_create] in *.
-  repeat break_match; simp_eqs; cbn [cp_dest cp_input] in *; try rewrite Heqo in K; try rewrite Heqo0 in K; try assumption;
-    try congruence.
+  cbn [known_empty_create] in *. now rewrite Hcp in K.
 Qed.
 
 Lemma template_changed_differs e p text s s' :
@@ -114,15 +100,14 @@ Qed.
 Lemma template_predicts e p text s c1 s1 c2 s2 :
   template e p (Some text) true s = (ROk c1, s1) ->
   template e p (Some text) false s = (ROk c2, s2) ->
-  known_empty_create (TTemplate p (Some text)) (sw s) = false -> c1 = c2.
+  known_empty_create e (TTemplate p (Some text)) (sw s) = false -> tmp_like_create e -> c1 = c2.
 Proof.
-  intros H1 H2 K.
+  intros H1 H2 K T.
   apply template_unfold in H1 as (cp1 & Hcp1 & Hc1). apply template_unfold in H2 as (cp2 & Hcp2 & Hc2).
   assert (cp1 = cp2) by congruence. subst cp2.
-  eapply copy_predicts; [exact Hc1|exact Hc2| |].
+  eapply copy_predicts; [exact Hc1|exact Hc2| | |exact T].
   - unfold template_copy_params in Hcp1. repeat break_match; simp_eqs; reflexivity.
-  - unfold template_copy_params in Hcp1. cbn [known_empty_create] in *.
-    repeat break_match; simp_eqs; cbn [cp_dest cp_input] in *; try assumption; try congruence.
+  - cbn [known_empty_create] in *. now rewrite Hcp1 in K.
 Qed.
 
 (* -------------------------------------------------------------------- pacman *)
